@@ -60,12 +60,27 @@ def coincidence_cases(draw):
             "seed": draw(st.integers(0, 10000))}
 
 
+@st.composite
+def tie_cases(draw):
+    """MGM2 / MGM on DCOPs where every cost is 0, 1 or 2: a coordinated gain that exactly equals a third variable's
+    gain, an offer that exactly equals the receiver's own gain - the branches that decide who answers whom."""
+    algo = draw(st.sampled_from(["mgm2", "mgm2", "mgm2", "mgm"]))
+    params = {"stop_cycle": draw(st.integers(2, 8))}
+    if algo == "mgm":
+        params["break_mode"] = draw(st.sampled_from(["lexic", "random"]))
+    else:
+        params["threshold"] = draw(st.sampled_from([0.3, 0.5, 0.7]))
+        params["favor"] = draw(st.sampled_from(["unilateral", "no", "coordinated"]))
+    return {"dcop": draw(gen.tie_dcops(min_vars=3, max_vars=5)), "algo": algo, "params": params,
+            "schedule": draw(gen.schedules(120)), "seed": draw(st.integers(0, 10000))}
+
+
 def case_strategy(tier):
     import os
     only = os.environ.get("VF_ALGOS")
     if only:
         return cases(tuple(only.split(",")))
-    return st.one_of(cases(), cases(), cases(), coincidence_cases())
+    return st.one_of(cases(), cases(), cases(), coincidence_cases(), tie_cases())
 
 
 def run_case(case):
